@@ -109,7 +109,7 @@ fn c02_addr_type_nibble() {
     let n: u8 = kani::any();
     let t = WireHostAddrType::from(n);
     let sz = t.size();
-    assert!(sz == 4 || sz == 8 || sz == 12 || sz == 16, "C02.layout: address size in {4,8,12,16}");
+    assert!(sz == 4 || sz == 8 || sz == 12 || sz == 16, "C02.layout: address size in (4,8,12,16)");
     if n < 16 {
         // wire format: DL/SL = low two bits, length = (L+1)*4
         assert!(sz as usize == ((n as usize & 3) + 1) * 4, "C02.layout: address size = (L+1)*4");
